@@ -48,7 +48,7 @@ package service
 // every System call made on behalf of the request that returns an error marks the request failed
 //@ error-ghost failed \(\*sys\.System\)\..*
 //@ func (*Service).ProcessRequest
-//@   ensures[C18.errors_propagate] failed ==> result1 != nil
+//@   ensures-each-return[C18.errors_propagate] failed ==> result1 != nil
 //@   ghost-ensures failed == (old(failed) || (result1 != nil && !is(result1, *Redirect)))
 //@   also-modifies failed
 //@ func (*HTTPService).ServeHTTP
